@@ -51,7 +51,8 @@ def obligations(tier):
         Ob('G.many', 'E', 'repositories holding up to 43 snapshots (> 10 x concurrency): clean/delete safe and complete', '6 snapshot counts x 2 concurrency x 3 commands x 3 reference patterns = 108',
            [F['del'], F['clean'], F['load']], module=G, func='g_many', timeout=900),
         Ob('G.fault', 'E', 'one backend call of clean/delete (k-th download, delete or existence check) fails for good with a backend error, timeout, connection reset or EIO: every snapshot still in the store keeps its chunks (all users), nothing foreign is removed, the command does not report success',
-           '2 callers x 9 owner pairs x 16 ref matrices x 3 commands x 6 failing calls x 4 error types = 20736', [F['del'], F['clean'], F['load']], module=G, func='g_fault', timeout=900, shards=4),
+           '2 callers x 9 owner pairs x 16 ref matrices x 3 commands x 6 failing calls = 5184 (error type rotating; thorough: x 4 error types = 20736)', [F['del'], F['clean'], F['load']], module=G, func='g_fault', timeout=900, shards=8, tiers=('quick',)),
+        Ob('G.fault', 'E', 'same, full product with the 4 error types', '20736', [F['del'], F['clean'], F['load']], module=G, func='g_fault_full', timeout=1800, shards=16, tiers=('thorough',)),
         Ob('G.bulk', 'E', 'one command removing ~975 / ~1003 / ~2025 / ~3750 chunks (real snapshots of one big file next to a kept and a foreign snapshot): delete, clean after an interrupted delete, delete of two snapshots: chunk objects == referenced set afterwards, the rest untouched',
            '2 modes x 4 sizes x 3 commands x concurrency {2,7} = 48', [F['del'], F['clean']], module='vt.harness.hist', func='g_bulk', timeout=900, shards=4),
         Ob('G.u', 'E', 'same for an unencrypted repository (one family)', '64 ref matrices (2x3) x 3 x 5 = 960', [F['del'], F['clean']],
